@@ -217,7 +217,24 @@ defvjp(anp.dsplit, lambda ans, ary, idxs: lambda g: anp.concatenate(g, axis=2))
 defvjp(anp.ravel, lambda ans, x, order=None: lambda g: anp.reshape(g, anp.shape(x), order=index_order(x, order)))
 defvjp(anp.expand_dims, lambda ans, x, axis: lambda g: anp.reshape(g, anp.shape(x)))
 defvjp(anp.squeeze, lambda ans, x, axis=None: lambda g: anp.reshape(g, anp.shape(x)))
-defvjp(anp.diag, lambda ans, x, k=0: lambda g: anp.diag(g, k))
+
+
+def grad_diag(ans, x, k=0):
+    if anp.ndim(x) != 2:  # x is a vector: its entries are on the k-th diagonal of ans
+        return lambda g: anp.diag(g, k)
+    rows, cols = anp.shape(x)
+
+    def vjp(g):
+        # g on the k-th diagonal of a matrix of zeros with the (not necessarily square) shape of x
+        square = anp.diag(g, k)
+        size = anp.shape(square)[0]
+        padded = anp.pad(square, ((0, max(rows - size, 0)), (0, max(cols - size, 0))), mode="constant")
+        return padded[:rows, :cols]
+
+    return vjp
+
+
+defvjp(anp.diag, grad_diag)
 defvjp(anp.flipud, lambda ans, x,: lambda g: anp.flipud(g))
 defvjp(anp.fliplr, lambda ans, x,: lambda g: anp.fliplr(g))
 defvjp(anp.rot90, lambda ans, x, k=1: lambda g: anp.rot90(g, -k))
